@@ -312,3 +312,11 @@ def batch(vc):
         if 'cond' in kinds[i]:
             m = re.search(r'IF "v" = %\((\d+)\)s', ln)
             vc.check('batch/if-condition-bound-to-the-expected-value', m is not None and getattr(norm(sent['p'][m.group(1)]), 'n', None) == 's%d-expected' % i)
+
+
+def queryset_and_instance_statements(tier, seed):
+    from contracts.native import c37
+    return c37.querysets(tier, seed)
+
+
+BOUNDED = [queryset_and_instance_statements]
